@@ -38,6 +38,10 @@ CLAIMS = {
          'TLC shows the design satisfies MirrorFaithful/CaptureFaithful and that the model of the code as it is violates MirrorFaithful for empty values; shadow-mode behaviours are replayed on real Syncers under 3 value and 7 key concretisations (NUL/0xff/511-byte keys, MDB_INTEGERKEY with key 0) comparing the application DBI with the live projection of the real shadow DBI; the counterexample is reproduced on the real code and reported as known finding F3.',
          'Steady state only; stamps up to order-isomorphism; inputs that crash lmdb-go RawRead (empty value behind an even-length key at the end of the last page) are excluded from replays and recorded as finding F10.',
          'DESIGN.md section 5 C11'),
+ 'C12': ('TLA+ spec Cleaner (RunOnce transcribed; listings in timestamp order, failing List/Delete, merge/commit notifications); TLC exhaustive + simulation; behaviours replayed on the real cleaner.Worker behind a fault-injecting bucket with foreign files',
+         'TLC checks KeepsYoung, KeepsNewest, FailSafe, Bounded and NeverEmptiesLive for every evolution of the listing, clock schedule, commit notification and failing call within the bounds; every simulated behaviour with a cleaning run is replayed on the real Worker with RunOnce(ctx, now) and the set of blobs after each step must equal the specification state; foreign files (other databases incl. a name-prefix neighbour, unparsable names, other kinds) must never be touched; a receive-only Syncer is observed to perform no Store and no Delete.',
+         '2 instances, <=2-3 snapshots each, clock 1..5(6), MustKeep in {0,1,2}, RemoveOld in {1,2,3}; snapshots of an instance appear in timestamp order (property text).',
+         'DESIGN.md section 5 C12'),
  'C19': ('TLA+ spec Strategy (loop state machines of Update/IterUpdate/EmptyPut checked against a map reference by TLC); every case replayed on a real LMDB with a scripted iterator under 7 key concretisations',
          'TLC checks every terminal state of the three loop machines against the reference over all stored contents x inputs x decisions; the exported cases are executed on a real LMDB through the real strategies with byte-ordered and MDB_INTEGERKEY keys, checking content, order, rejection of unsorted input and that the iterator was handed the stored value.',
          '4 abstract keys, inputs up to length 4 (unsorted up to 2, thorough 3); LMDB cursor semantics assumed as modelled.',
